@@ -28,7 +28,7 @@ extern int mpt_valfmt_get(MPT_STRUCT(value_format) *ptr, const char *src)
 	long val;
 	
 	if (!(pos = src)) {
-		*ptr = fmt;
+		if (ptr) *ptr = fmt;
 		return 0;
 	}
 	while (isspace(*pos)) {
@@ -36,7 +36,7 @@ extern int mpt_valfmt_get(MPT_STRUCT(value_format) *ptr, const char *src)
 	}
 	/* select format */
 	if (!*pos) {
-		*ptr = fmt;
+		if (ptr) *ptr = fmt;
 		return pos - src;
 	}
 	if (*pos == '+') {
@@ -68,7 +68,7 @@ extern int mpt_valfmt_get(MPT_STRUCT(value_format) *ptr, const char *src)
 	}
 	fmt.width = val;
 	if (!*pos || isspace(*pos)) {
-		*ptr = fmt;
+		if (ptr) *ptr = fmt;
 		return pos - src;
 	}
 	if (*(pos++) != '.') {
@@ -87,7 +87,7 @@ extern int mpt_valfmt_get(MPT_STRUCT(value_format) *ptr, const char *src)
 	}
 	fmt.dec = val;
 	
-	*ptr = fmt;
+	if (ptr) *ptr = fmt;
 	
 	return pos - src;
 }
